@@ -177,9 +177,34 @@ def targeted_cases(kind):
             yield (p0, True, ops)
 
 
+def targeted_cases_g2(kind):
+    """the second role definition (resource roles g2): every pair of calls from its own alphabet - single, batch and
+    FILTERED removals included - with a full probe after each call"""
+    import itertools
+    A = mgmt.ATOMS.a
+    uni = mgmt.Universe(kind)
+    l1 = [A("data1"), A("grp")]
+    l2 = [A("data2"), A("grp")]
+    alpha = [(1, 2, l1), (1, 2, l2), (3, 2, l1), (2, 2, [l1, l2]), (4, 2, [l1, l2]), (4, 2, [l2]),
+             (5, 2, 0, [A("data1")]), (5, 2, 1, [A("grp")]), (5, 2, 0, [0, A("grp")]), (30,), (31,)]
+    p0 = [(0, [A("alice"), A("grp"), A("read")]), (2, l1)]
+    probe = mgmt.probe_ops(kind, uni)
+    for n in (1, 2):
+        for seq in itertools.product(alpha, repeat=n):
+            ops = []
+            for o in seq:
+                ops.append(o)
+                ops.extend(probe)
+            yield (p0, True, ops)
+
+
 def run(chk, n_random, targeted_len):
     rng = chk.rng
     known_probe(chk)
+    kind = mgmt.KINDS["rbac_res"]
+    cases = list(targeted_cases_g2(kind))
+    mgmt.run_cases(chk, kind, cases, spec_check, label="targeted-g2")
+    chk.extra.setdefault("strata", {})["targeted_g2_len<=2"] = len(cases)
     for kn in ("rbac", "dom"):
         kind = mgmt.KINDS[kn]
         cases = [c for c in targeted_cases(kind) if sum(1 for o in c[2] if o[0] < 50) <= targeted_len]
